@@ -56,10 +56,10 @@ func NewEmitterWorld(k, reads int, global bool) (*EmitterWorld, error) {
 	// phase 1: fill the 16-slot delivery channel, ungated (no choice matters: nothing else is pending)
 	for i := 0; i < w.fill; i++ {
 		w.emitted++
-		w.prodCmd <- w.emitted
-		if err := sim.Quiesce(); err != nil {
-			return nil, err
-		}
+		w.prodCmd <- w.emitted // the producer emits strictly one after the other
+	}
+	if err := sim.Quiesce(); err != nil {
+		return nil, err
 	}
 	if len(w.ch) != w.fill {
 		return nil, fmt.Errorf("emitter world: expected %d buffered events, have %d", w.fill, len(w.ch))
